@@ -12,8 +12,19 @@ def queries(tier):
     maxq = 6 if tier == "quick" else 8
     qs = []
     for op in OPS:
-        if op == "RESIZE" and tier == "quick":
-            continue   # heap-backed store + realloc: needs > 8 GB; thorough tier only
+        if op == "RESIZE":
+            # heap-backed store + realloc + mpt_queue_align: does not finish with a symbolic ring state (> 24 GB);
+            # driver-side case split over (capacity, offset, fill, new size), bytes symbolic
+            tuples = [(4, 2, 2, 3), (4, 3, 3, 2), (4, 0, 4, 6), (4, 1, 2, 0), (3, 2, 2, 5), (4, 1, 3, 2)] if tier == "quick" else \
+                     [(m, o, l, n) for m in (3, 4) for o in range(0, m) for l in range(0, m + 1) for n in range(0, 7)]
+            for (m, o, l, n) in tuples:
+                qs.append(Q("q_resize_m%d_o%d_l%d_n%d" % (m, o, l, n), "C13/qop.c", units=QU,
+                            harness_defines={"OP": "OP_RESIZE", "MAXQ": 4, "MAXC": m, "OFFC": o, "LENC": l, "NSZC": n},
+                            unwind_default=14, unwind={"mpt_memrev.0": 2, "mpt_memswap.0": 2, "realloc": 14}, witness=[""],
+                            stubs=["libc.c", "realloc_small.c", "libc_loops.c"], flags=["--max-field-sensitivity-array-size", "100", "--memory-leak-check"],
+                            bounds="heap-backed ring: capacity %d, offset %d, fill %d, resize to %d (case split), content symbolic" % (m, o, l, n),
+                            outside="capacities above 4; mpt_queue_prepare"))
+            continue
         if op in ("ALIGN", "STRING", "MEMREV", "RESIZE"):
             maxq = 4 if tier == "quick" else 5   # 1024-byte scratch arrays of mpt_memrev dominate the cost
         qs.append(Q("q_" + op.lower(), "C13/qop.c", units=QU,
